@@ -75,9 +75,9 @@ deriving DecidableEq, Repr, Inhabited
 /-- what the compiled print of a module with data is a function of (at the time of its compilation) -/
 structure Desc where
   feats : List Bytes                  -- enabled own features (main module, then submodules)
-  augBy : List MKey                   -- in `augmented_by` order (order of the appended children)
-  devBy : List MKey                   -- sorted (each deviation touches a node of its own)
-  grp : List (MKey × List Bytes)      -- enabled features of the modules whose grouping is used
+  augBy : List Bytes                  -- names, in `augmented_by` order (order of the appended children)
+  devBy : List Bytes                  -- names, sorted (each deviation touches a node of its own)
+  grp : List (Bytes × List Bytes)     -- enabled features of the modules whose grouping is used
 deriving DecidableEq, Repr, Inhabited
 
 /-- `lys_module.latest_revision` bits -/
@@ -262,12 +262,12 @@ def Mod.impKey (m : Mod) (name : Bytes) : Option MKey := m.impRes.find? (fun k =
 
 def Ctx.descOf (s : Ctx) (m : Mod) : Desc :=
   if m.src.hasData then
-    { feats := m.enabledNames, augBy := m.augBy, devBy := sortKeys m.devBy,
+    { feats := m.enabledNames, augBy := m.augBy.map (·.1), devBy := (sortKeys m.devBy).map (·.1),
       grp := m.src.usesGrp.filterMap fun n => match m.impKey n with
         | none => none
         | some k => match s.find k with
           | none => none
-          | some t => some (k, (t.feats.filter (·.on)).map (·.name)) }
+          | some t => some (k.1, (t.feats.filter (·.on)).map (·.name)) }
   else { feats := [], augBy := [], devBy := [], grp := [] }
 
 def tick (n : Nat) (s : Ctx) : Ctx := { s with changeCount := s.changeCount + BitVec.ofNat 16 n, ticks := s.ticks + n }
@@ -764,7 +764,7 @@ inductive Op
   | unsetOpt (explicit privParsed : Bool)                -- ly_ctx_unset_options
 deriving Repr, Inhabited
 
-def parseFuel (s : Ctx) : Nat := s.repo.length + s.mods.length + 3
+def parseFuel (s : Ctx) : Nat := 2 * (s.repo.length + s.mods.length) + 4     -- two levels per import hop
 
 /-- implement + (unless explicit compile) dep set of the module + compile + erase -/
 def implementAndCompile (k : MKey) (feats : FeatArg) : M Unit := do
